@@ -1,6 +1,353 @@
+import Model.ValueSpec
+import Model.MarshalInterp
 import Driver.Util
 namespace Driver.C12
-/-- placeholder: replaced when the property's model is built -/
-def step (_ : Unit) (_ : List String) : Unit × String := ((), "unimplemented")
+open Util
+open ValueSpec (CqlTy CqlVal Bytes)
+open Marshal
+
+/-!
+Line protocol (prefix notation, one token per word):
+
+  type    ::= ascii | bigint | … | list T | set T | map K V | tuple n T… | udt n name T …
+  goval   ::= nil | unset | nilptr | i K n | ni K n | s hex | ns hex | b hex | bnil | nb hex | nbnil
+            | bool 0/1 | nbool 0/1 | f32 bits | nf32 bits | f64 bits | nf64 bits | big n | dec u s | t sec nsec
+            | dur ns | cd m d n | uuid hex | a16 hex | ip hex | ptr V | sl GT n V… | slnil GT | arr GT n V…
+            | ifs n V… | map GK GV n K V … | mapnil GK GV | mset GK n K… | st n V… | um n name V … | umnil
+            | us n name V …
+  goty    ::= k K | nk K | string | nstring | bytes | nbytes | bool | nbool | f32 | nf32 | f64 | nf64 | big | dec
+            | time | dur | cdur | uuid | a16 | ip | ptr T | slice T | array n T | map K V | iface | ifs n T…
+            | struct n T… | umap | ustruct n name T …
+ops:
+  enc p T V          → ok hex | null | err | crash | unmodelled          (model of gocql.Marshal)
+  spec p T V         → ok hex | null | err                               (SPEC: specEnc (interp V))
+  cls p T V          → undocumented | excluded | clean                                (the `_partial` hypothesis)
+  dec p T hex|null GT     → ok V' | err | crash | unmodelled             (model of gocql.Unmarshal)
+  specdec p T hex GT      → ok V' | err | nonconformant | unmodelled     (SPEC: represent (specDec bytes))
+Printed values carry no Go types; map entries are sorted by their printed key.
+-/
+
+def parseKind : String → Option IntKind
+  | "int" => some .int | "int8" => some .int8 | "int16" => some .int16 | "int32" => some .int32
+  | "int64" => some .int64 | "uint" => some .uint | "uint8" => some .uint8 | "uint16" => some .uint16
+  | "uint32" => some .uint32 | "uint64" => some .uint64 | _ => none
+
+def kindName : IntKind → String
+  | .int => "int" | .int8 => "int8" | .int16 => "int16" | .int32 => "int32" | .int64 => "int64"
+  | .uint => "uint" | .uint8 => "uint8" | .uint16 => "uint16" | .uint32 => "uint32" | .uint64 => "uint64"
+
+def scalarTy : String → Option CqlTy
+  | "ascii" => some .ascii | "bigint" => some .bigint | "blob" => some .blob | "boolean" => some .boolean
+  | "counter" => some .counter | "decimal" => some .decimal | "double" => some .double | "float" => some .float
+  | "int" => some .int | "text" => some .text | "timestamp" => some .timestamp | "uuid" => some .uuid
+  | "varchar" => some .varchar | "varint" => some .varint | "timeuuid" => some .timeuuid | "inet" => some .inet
+  | "date" => some .date | "time" => some .time | "smallint" => some .smallint | "tinyint" => some .tinyint
+  | "duration" => some .duration | _ => none
+
+/-- parse `n` items with `f` -/
+def pMany {α : Type} (f : List String → Option (α × List String)) : Nat → List String → Option (List α × List String)
+  | 0, ws => some ([], ws)
+  | n+1, ws => do
+      let (a, r) ← f ws
+      let (as, r') ← pMany f n r
+      some (a :: as, r')
+
+def pTy : Nat → List String → Option (CqlTy × List String)
+  | 0, _ => none
+  | fuel+1, ws => match ws with
+    | "list" :: r => do let (t, r') ← pTy fuel r; some (.list t, r')
+    | "set" :: r => do let (t, r') ← pTy fuel r; some (.set t, r')
+    | "map" :: r => do
+        let (k, r1) ← pTy fuel r
+        let (v, r2) ← pTy fuel r1
+        some (.map k v, r2)
+    | "tuple" :: n :: r => do
+        let n ← n.toNat?
+        let (ts, r') ← pMany (pTy fuel) n r
+        some (.tuple ts, r')
+    | "udt" :: n :: r => do
+        let n ← n.toNat?
+        let (fs, r') ← pMany (fun ws => match ws with
+          | name :: r => (pTy fuel r).map (fun (t, r') => ((name, t), r'))
+          | [] => none) n r
+        some (.udt (fs.map (·.1)) (fs.map (·.2)), r')
+    | w :: r => (scalarTy w).map (fun t => (t, r))
+    | [] => none
+
+def pGoTy : Nat → List String → Option (GoTy × List String)
+  | 0, _ => none
+  | fuel+1, ws => match ws with
+    | "k" :: k :: r => (parseKind k).map (fun k => (.int k false, r))
+    | "nk" :: k :: r => (parseKind k).map (fun k => (.int k true, r))
+    | "string" :: r => some (.str false, r)
+    | "nstring" :: r => some (.str true, r)
+    | "bytes" :: r => some (.bytes false, r)
+    | "nbytes" :: r => some (.bytes true, r)
+    | "bool" :: r => some (.bool false, r)
+    | "nbool" :: r => some (.bool true, r)
+    | "f32" :: r => some (.f32 false, r)
+    | "nf32" :: r => some (.f32 true, r)
+    | "f64" :: r => some (.f64 false, r)
+    | "nf64" :: r => some (.f64 true, r)
+    | "big" :: r => some (.big, r)
+    | "dec" :: r => some (.dec, r)
+    | "time" :: r => some (.time, r)
+    | "dur" :: r => some (.dur, r)
+    | "cdur" :: r => some (.cqldur, r)
+    | "uuid" :: r => some (.uuid, r)
+    | "a16" :: r => some (.arr16, r)
+    | "ip" :: r => some (.ip, r)
+    | "iface" :: r => some (.iface, r)
+    | "umap" :: r => some (.udtmap, r)
+    | "ptr" :: r => do let (t, r') ← pGoTy fuel r; some (.ptr t, r')
+    | "slice" :: r => do let (t, r') ← pGoTy fuel r; some (.slice t, r')
+    | "array" :: n :: r => do
+        let n ← n.toNat?
+        let (t, r') ← pGoTy fuel r
+        some (.array n t, r')
+    | "map" :: r => do
+        let (k, r1) ← pGoTy fuel r
+        let (v, r2) ← pGoTy fuel r1
+        some (.map k v, r2)
+    | "ifs" :: n :: r => do
+        let n ← n.toNat?
+        let (ts, r') ← pMany (pGoTy fuel) n r
+        some (.ifaces ts, r')
+    | "struct" :: n :: r => do
+        let n ← n.toNat?
+        let (ts, r') ← pMany (pGoTy fuel) n r
+        some (.struct ts, r')
+    | "ustruct" :: n :: r => do
+        let n ← n.toNat?
+        let (fs, r') ← pMany (fun ws => match ws with
+          | name :: r => (pGoTy fuel r).map (fun (t, r') => ((name, t), r'))
+          | [] => none) n r
+        some (.udtstruct (fs.map (·.1)) (fs.map (·.2)), r')
+    | _ => none
+
+def pBit : String → Option Bool
+  | "0" => some false | "1" => some true | _ => none
+
+def pVal : Nat → List String → Option (GoVal × List String)
+  | 0, _ => none
+  | fuel+1, ws => match ws with
+    | "nil" :: r => some (.nil, r)
+    | "unset" :: r => some (.unset, r)
+    | "nilptr" :: r => some (.nilptr, r)
+    | "i" :: k :: n :: r => do let k ← parseKind k; let n ← n.toInt?; some (.int k false n, r)
+    | "ni" :: k :: n :: r => do let k ← parseKind k; let n ← n.toInt?; some (.int k true n, r)
+    | "s" :: h :: r => (parseHex h).map (fun b => (.str false b, r))
+    | "ns" :: h :: r => (parseHex h).map (fun b => (.str true b, r))
+    | "b" :: h :: r => (parseHex h).map (fun b => (.bytes false false b, r))
+    | "bnil" :: r => some (.bytes false true [], r)
+    | "nb" :: h :: r => (parseHex h).map (fun b => (.bytes true false b, r))
+    | "nbnil" :: r => some (.bytes true true [], r)
+    | "bool" :: x :: r => (pBit x).map (fun b => (.bool false b, r))
+    | "nbool" :: x :: r => (pBit x).map (fun b => (.bool true b, r))
+    | "f32" :: x :: r => x.toNat?.map (fun n => (.f32 false n, r))
+    | "nf32" :: x :: r => x.toNat?.map (fun n => (.f32 true n, r))
+    | "f64" :: x :: r => x.toNat?.map (fun n => (.f64 false n, r))
+    | "nf64" :: x :: r => x.toNat?.map (fun n => (.f64 true n, r))
+    | "big" :: n :: r => n.toInt?.map (fun n => (.big n, r))
+    | "dec" :: u :: s :: r => do let u ← u.toInt?; let s ← s.toInt?; some (.dec u s, r)
+    | "t" :: a :: b :: r => do let a ← a.toInt?; let b ← b.toInt?; some (.time a b, r)
+    | "dur" :: n :: r => n.toInt?.map (fun n => (.dur n, r))
+    | "cd" :: m :: d :: n :: r => do let m ← m.toInt?; let d ← d.toInt?; let n ← n.toInt?; some (.cqldur m d n, r)
+    | "uuid" :: h :: r => (parseHex h).map (fun b => (.uuid b, r))
+    | "a16" :: h :: r => (parseHex h).map (fun b => (.arr16 b, r))
+    | "ip" :: h :: r => (parseHex h).map (fun b => (.ip b, r))
+    | "ptr" :: r => do let (v, r') ← pVal fuel r; some (.ptr v, r')
+    | "sl" :: r => do
+        let (_, r0) ← pGoTy fuel r
+        match r0 with
+        | n :: r1 => do
+            let n ← n.toNat?
+            let (vs, r') ← pMany (pVal fuel) n r1
+            some (.slice false vs, r')
+        | [] => none
+    | "slnil" :: r => do let (_, r0) ← pGoTy fuel r; some (.slice true [], r0)
+    | "arr" :: r => do
+        let (_, r0) ← pGoTy fuel r
+        match r0 with
+        | n :: r1 => do
+            let n ← n.toNat?
+            let (vs, r') ← pMany (pVal fuel) n r1
+            some (.array vs, r')
+        | [] => none
+    | "ifs" :: n :: r => do
+        let n ← n.toNat?
+        let (vs, r') ← pMany (pVal fuel) n r
+        some (.ifaces vs, r')
+    | "map" :: r => do
+        let (_, r0) ← pGoTy fuel r
+        let (_, r1) ← pGoTy fuel r0
+        match r1 with
+        | n :: r2 => do
+            let n ← n.toNat?
+            let (kvs, r') ← pMany (fun ws => do
+              let (k, a) ← pVal fuel ws
+              let (v, b) ← pVal fuel a
+              some ((k, v), b)) n r2
+            some (.map false kvs, r')
+        | [] => none
+    | "mapnil" :: r => do
+        let (_, r0) ← pGoTy fuel r
+        let (_, r1) ← pGoTy fuel r0
+        some (.map true [], r1)
+    | "mset" :: r => do
+        let (_, r0) ← pGoTy fuel r
+        match r0 with
+        | n :: r1 => do
+            let n ← n.toNat?
+            let (vs, r') ← pMany (pVal fuel) n r1
+            some (.mapset vs, r')
+        | [] => none
+    | "st" :: n :: r => do
+        let n ← n.toNat?
+        let (vs, r') ← pMany (pVal fuel) n r
+        some (.struct vs, r')
+    | "um" :: n :: r => do
+        let n ← n.toNat?
+        let (fs, r') ← pMany (fun ws => match ws with
+          | name :: r => (pVal fuel r).map (fun (v, r') => ((name, v), r'))
+          | [] => none) n r
+        some (.udtmap false (fs.map (·.1)) (fs.map (·.2)), r')
+    | "umnil" :: r => some (.udtmap true [] [], r)
+    | "us" :: n :: r => do
+        let n ← n.toNat?
+        let (fs, r') ← pMany (fun ws => match ws with
+          | name :: r => (pVal fuel r).map (fun (v, r') => ((name, v), r'))
+          | [] => none) n r
+        some (.udtstruct (fs.map (·.1)) (fs.map (·.2)), r')
+    | _ => none
+
+/-! ## printing -/
+
+def insertSorted (x : String × String) : List (String × String) → List (String × String)
+  | [] => [x]
+  | y :: r => if x.1 < y.1 then x :: y :: r else y :: insertSorted x r
+
+def zipNames : List String → List String → List String
+  | n :: ns, v :: vs => (n ++ " " ++ v) :: zipNames ns vs
+  | _, _ => []
+
+mutual
+def showVal : GoVal → String
+  | .nil => "nil"
+  | .unset => "unset"
+  | .nilptr => "nilptr"
+  | .int k named v => (if named then "ni " else "i ") ++ kindName k ++ " " ++ toString v
+  | .str named s => (if named then "ns " else "s ") ++ toHex s
+  | .bytes named isNil b => if isNil then (if named then "nbnil" else "bnil") else (if named then "nb " else "b ") ++ toHex b
+  | .bool named b => (if named then "nbool " else "bool ") ++ (if b then "1" else "0")
+  | .f32 named x => (if named then "nf32 " else "f32 ") ++ toString x
+  | .f64 named x => (if named then "nf64 " else "f64 ") ++ toString x
+  | .big v => "big " ++ toString v
+  | .dec u s => "dec " ++ toString u ++ " " ++ toString s
+  | .time a b => "t " ++ toString a ++ " " ++ toString b
+  | .dur n => "dur " ++ toString n
+  | .cqldur m d n => "cd " ++ toString m ++ " " ++ toString d ++ " " ++ toString n
+  | .uuid b => "uuid " ++ toHex b
+  | .arr16 b => "a16 " ++ toHex b
+  | .ip b => "ip " ++ toHex b
+  | .ptr v => "ptr " ++ showVal v
+  | .slice isNil vs => if isNil then "slnil" else "sl " ++ toString vs.length ++ showVals vs
+  | .array vs => "arr " ++ toString vs.length ++ showVals vs
+  | .ifaces vs => "ifs " ++ toString vs.length ++ showVals vs
+  | .map isNil kvs => if isNil then "mapnil" else
+      let es := (showPairs kvs).foldl (fun acc x => insertSorted x acc) []
+      "map " ++ toString kvs.length ++ es.foldl (fun acc (k, v) => acc ++ " " ++ k ++ " " ++ v) ""
+  | .mapset ks => "mset " ++ toString ks.length ++ showVals ks
+  | .struct vs => "st " ++ toString vs.length ++ showVals vs
+  | .udtmap isNil names vs => if isNil then "umnil" else
+      let es := ((names.zip (showValList vs))).foldl (fun acc x => insertSorted x acc) []
+      "um " ++ toString vs.length ++ es.foldl (fun acc (k, v) => acc ++ " " ++ k ++ " " ++ v) ""
+  | .udtstruct names vs =>
+      "us " ++ toString vs.length ++ (zipNames names (showValList vs)).foldl (fun acc x => acc ++ " " ++ x) ""
+def showVals : List GoVal → String
+  | [] => ""
+  | v :: vs => " " ++ showVal v ++ showVals vs
+def showValList : List GoVal → List String
+  | [] => []
+  | v :: vs => showVal v :: showValList vs
+def showPairs : List (GoVal × GoVal) → List (String × String)
+  | [] => []
+  | (k, v) :: r => (showVal k, showVal v) :: showPairs r
+end
+
+def showM : MRes → String
+  | .ok (some b) => "ok " ++ toHex b
+  | .ok none => "null"
+  | .err => "err"
+  | .crash => "crash"
+  | .unmodelled => "unmodelled"
+
+def showU : URes → String
+  | .ok v => "ok " ++ showVal v
+  | .err => "err"
+  | .crash => "crash"
+  | .unmodelled => "unmodelled"
+
+/-- `[]byte(nil)` and `[]byte{}` both denote the empty byte string: the semantic printer does not distinguish them
+    at the top of a decoded scalar (used by `specdec` only) -/
+def normBytes : GoVal → GoVal
+  | .bytes named true _ => .bytes named false []
+  | .ptr v => .ptr (normBytes v)
+  | g => g
+
+/-! ## ops -/
+
+def parseData (w : String) : Option (Option Bytes) :=
+  if w == "null" then some none else (parseHex w).map some
+
+def specAnswer (p : Nat) (t : CqlTy) (g : GoVal) : String :=
+  match interp t g with
+  | none => "err"
+  | some .null => "null"
+  | some v => (match ValueSpec.specEnc p t v with
+      | some b => "ok " ++ toHex b
+      | none => "err")
+
+def specDecAnswer (p : Nat) (t : CqlTy) (b : Bytes) (ty : GoTy) : String :=
+  match ValueSpec.specDec p t b with
+  | none => "nonconformant"
+  | some v => (match represent t ty v with
+      | .ok g => "ok " ++ showVal (normBytes g)
+      | .err => "err"
+      | _ => "unmodelled")
+
+def runTV (f : Nat → CqlTy → GoVal → String) (ws : List String) : String :=
+  match ws with
+  | p :: r => (match p.toNat? with
+      | none => "bad-op"
+      | some p => (match pTy (r.length + 1) r with
+          | none => "bad-op"
+          | some (t, r1) => (match pVal (r1.length + 1) r1 with
+              | some (g, []) => f p t g
+              | _ => "bad-op")))
+  | [] => "bad-op"
+
+def runDec (f : Nat → CqlTy → Option Bytes → GoTy → String) (ws : List String) : String :=
+  match ws with
+  | p :: r => (match p.toNat? with
+      | none => "bad-op"
+      | some p => (match pTy (r.length + 1) r with
+          | some (t, d :: r1) => (match parseData d, pGoTy (r1.length + 1) r1 with
+              | some data, some (ty, []) => f p t data ty
+              | _, _ => "bad-op")
+          | _ => "bad-op"))
+  | [] => "bad-op"
+
+def step (_ : Unit) (ws : List String) : Unit × String :=
+  ((), match ws with
+  | "enc" :: r => runTV (fun p t g => showM (marshal p t g)) r
+  | "spec" :: r => runTV specAnswer r
+  | "cls" :: r => runTV classify r
+  | "dec" :: r => runDec (fun p t data ty => showU (unmarshal p t ty data)) r
+  | "specdec" :: r => runDec (fun p t data ty => match data with
+      | some b => specDecAnswer p t b ty
+      | none => "bad-op") r
+  | _ => "bad-op")
+
 def init : Unit := ()
 end Driver.C12
